@@ -289,8 +289,11 @@ NRNext(st, w, e) ==
 Lazy(st) == st.rd = "open" /\ (fr[st.start].comp \/ st.lazy)
 DropObs(w, k) == [w EXCEPT !.obs = SubSeq(w.obs, k + 1, Len(w.obs))]
 
-RECURSIVE JALoop(_, _, _, _, _, _)
-JALoop(st, obs, starts, lens, total, tl) ==
+(* cont: a message whose last bytes arrived together with the transport fault may be followed by further      *)
+(* messages that arrived in that same transport read; an implementation that reports the fault only when it    *)
+(* needs more bytes delivers them too (cont = TRUE), one that reports it at once stops there (cont = FALSE).   *)
+RECURSIVE JALoop(_, _, _, _, _, _, _)
+JALoop(st, obs, starts, lens, total, tl, cont) ==
   LET w1 == IF ~st.wild /\ Lazy(st) THEN DropObs(NRWalk(st, FALSE), st.zobs) ELSE NRWalk(st, FALSE) IN
   IF st.failed THEN [s |-> st, obs |-> obs, starts |-> starts, lens |-> lens, total |-> total, partial |-> 0, w |-> Out(st, << >>, "failed", FALSE)]
   ELSE IF w1.res # "data" THEN
@@ -298,8 +301,8 @@ JALoop(st, obs, starts, lens, total, tl) ==
   ELSE LET s1 == w1.s
            w2 == RALoop(s1, << >>)
            len == IF fr[s1.start].comp THEN fr[s1.start].plain ELSE w2.s.got
-       IN IF w2.res = "eom" /\ fr[w2.s.cur].arr = "full" THEN
-               JALoop([w2.s EXCEPT !.rd = "eof"], obs \o w1.obs \o w2.obs, Append(starts, s1.start), Append(lens, len), total + len + tl, tl)
+       IN IF w2.res = "eom" /\ (fr[w2.s.cur].arr = "full" \/ (cont /\ fr[w2.s.cur].arr = "with")) THEN
+               JALoop([w2.s EXCEPT !.rd = "eof"], obs \o w1.obs \o w2.obs, Append(starts, s1.start), Append(lens, len), total + len + tl, tl, cont)
           ELSE [s |-> w2.s, obs |-> obs \o w1.obs \o w2.obs, starts |-> starts, lens |-> lens, total |-> total, partial |-> len,
                 w |-> [w2 EXCEPT !.obs = obs \o w1.obs \o w2.obs]]
 
